@@ -87,6 +87,19 @@ def cmp(ctx, quantity, sig, impl, exact, scale, case, tol=TOL):
     )
 
 
+def call_impl(ctx, sig, case, fn):
+    """Run a piece of the real code on an input that the property says is valid; an exception is a violation."""
+    import warnings
+
+    try:
+        with warnings.catch_warnings():
+            warnings.simplefilter("ignore")
+            return True, fn()
+    except Exception as e:  # noqa: BLE001
+        ctx.violation(sig + ":raised", f"valid input rejected / crashed: {type(e).__name__}: {str(e)[:300]}", case)
+        return False, None
+
+
 # ------------------------------------------------------------------------------------------------
 # constructors of the real objects
 
@@ -267,7 +280,9 @@ def check_constructor_values(ctx, d):
     ode = make_ode(f, K1, d)
     if m1 > 0:
         ode = ode.jet_lift(lift_by=m1)
-    r1 = probdiffeq.residual_from_ode(ode)
+    ok, r1 = call_impl(ctx, "residual_from_ode", {"K": K1, "lift_by": m1}, lambda: probdiffeq.residual_from_ode(ode))
+    if not ok:
+        return
     r2 = make_residual(g, K2, d)
     if m2 > 0:
         r2 = r2.jet_lift(lift_by=m2)
@@ -285,7 +300,9 @@ def check_constructor_values(ctx, d):
         if obj.num_tcoeffs_in_args != order:
             ctx.violation(f"{name}:num_args", f"num_tcoeffs_in_args = {obj.num_tcoeffs_in_args}, model {order}", case)
             continue
-        out = obj.residual_function(jet_coords=jc[:order], t=t)
+        ok, out = call_impl(ctx, name, case, lambda: obj.residual_function(jet_coords=jc[:order], t=t))
+        if not ok:
+            continue
         impl = flat_outputs(_flatten_nested(out))
         mspec = spec_ode(K1, m1, maj_ode(f)) if name == "residual_from_ode" else spec_stack([spec_ode(K1, m1, maj_ode(f)), spec_res(K2, m2, maj(g))])
         mans = ctx.drv.call("lin_eval", n, d, F(abs(t)), exprs.frac_list(np.abs(xi)), mspec)
@@ -452,7 +469,10 @@ def check_linearize(ctx, kind, ctype):
             ode = ode.jet_lift(lift_by=m)
         c = ssm.constraint_ode_ts0(ode)
         ctx.case(case)
-        cond, _ = c.linearize(rv, c.init_linearization(), damp=damp, t=t)
+        ok, res = call_impl(ctx, sigbase, case, lambda: c.linearize(rv, c.init_linearization(), damp=damp, t=t))
+        if not ok:
+            return
+        cond, _ = res
         idxs = [K + j for j in range(m + 1)]
         fv = ctx.drv.call("lin_lift_exprs", K, d, m, n, F(t), exprs.frac_list(xi), len(es), exprs.tokens_list(es))
         fvm = ctx.drv.call("lin_lift_exprs", K, d, m, n, F(abs(t)), exprs.frac_list(np.abs(xi)), len(es), exprs.tokens_list(maj(es)))
@@ -505,11 +525,10 @@ def check_linearize(ctx, kind, ctype):
         case["K2"], case["lift2"] = K2, m2
     case["spec"] = spec
     ctx.case(case)
-    import warnings
-
-    with warnings.catch_warnings():
-        warnings.simplefilter("ignore")
-        cond, _ = c.linearize(rv, c.init_linearization(), damp=damp, t=t)
+    ok, res = call_impl(ctx, sigbase, case, lambda: c.linearize(rv, c.init_linearization(), damp=damp, t=t))
+    if not ok:
+        return
+    cond, _ = res
     compare_linearisation(ctx, kind, cond, n, d, t, xi, spec, mspec, case, sigbase)
     check_noise(ctx, kind, cond, damp, case, sigbase)
 
@@ -572,7 +591,7 @@ def run(ctx):
     budget = 60 if ctx.quick else 600
 
     # lifting
-    for i in range(ctx.n(24, 300)):
+    for i in range(ctx.n(45, 1200)):
         if time.time() - t_start > budget * 0.4:
             ctx.notes.append(f"lift loop stopped after {i} cases (time budget)")
             break
@@ -597,17 +616,17 @@ def run(ctx):
         kinds = jetcheck.tree_kinds(d)
         kind = kinds[int(rng.integers(len(kinds)))]
         check_lift(ctx, what, K, d, es, coords, t, lift_by, kind)
-    for i in range(ctx.n(3, 12)):
+    for i in range(ctx.n(3, 20)):
         K = int(rng.choice([1, 2]))
         check_lift_max(ctx, K, 2, exprs.gen_field(rng, K, 2, time_dep=True, max_deg=2), K + 1 + int(rng.integers(0, 4)))
 
     # constructors
-    for i in range(ctx.n(6, 60)):
+    for i in range(ctx.n(10, 200)):
         check_constructor_values(ctx, int(rng.choice([1, 2, 3])))
 
     # linearisation
     combos = [(k, c) for k in ("dense", "iso", "bd") for c in ("ts0", "ts1", "residual", "stack")]
-    reps = ctx.n(3, 30)
+    reps = ctx.n(5, 110)
     for rep in range(reps):
         for kind, ctype in combos:
             if time.time() - t_start > budget:
